@@ -5,19 +5,26 @@ from vcheck import *
 MANIFEST = {
     "id": "C03",
     "text": "Coq: executable model of Expression::to_proc_gen_rec (exact emitted text incl. hoisted statements, guards, l-value paths) "
-            "with the generic printer theorem (level tables => the emitted token string derives, in the stratified ECMAScript "
-            "expression grammar, exactly the intended tree, for every expression of every depth) and evaluation theorems over an "
-            "abstract operator semantics. Tie: exact text equality model vs implementation on all operator x position x child-shape "
-            "combinations (depth 2, exhaustive) and random deep expressions in four binding contexts; value differential in node "
-            "(generated code through the real pipeline vs fully parenthesised reference JS) over an edge-value data pool.",
+            "that also keeps the emitted value as a tree. Theorems: the tree prints to exactly the emitted text, for every expression "
+            "form (C03_emitted_text_is_tree); every operand position of the tree respects the ECMAScript precedence requirement or is "
+            "parenthesised (C03_emitted_respects_precedence, from the level tables C03_tables_ok); for every expression of the fragment "
+            "(fields, scope variables, member / index access, literals, unary / binary operators incl. && || ??, conditionals, string "
+            "conversion) running the hoisted statements in order from any initial state and evaluating the tree gives the value of the "
+            "source expression (C03_compile_correct). Tie: exact text equality model vs implementation on all operator x position x "
+            "child-shape combinations (depth 2, exhaustive) and random deep expressions in four binding contexts; the model's source "
+            "semantics (Val.eval) vs node evaluating the emitted text; value differential in node (generated code through the real "
+            "pipeline vs fully parenthesised reference JS) over an edge-value data pool for ALL expression forms.",
     "note": "Trusted: Coq kernel, extraction, harness generators (abstract expression -> WXML text / reference JS), node as the JS "
-            "semantics oracle, jsrt. Strict numeric operator semantics are abstract in Coq (a Section variable used on both sides). "
-            "Array spread of non-arrays / sparse arrays and functions with side effects are outside the reference's domain.",
-    "technique": "Coq proof (structural induction, printer-level tables) + model/implementation text correspondence + node value differential",
+            "semantics oracle (operators on evaluated operands are shared between source and target semantics in Coq: the theorem is "
+            "about the generator, the operators' meaning is validated by node), the ECMAScript precedence table in JsPrint.wf_prec, jsrt. "
+            "Calls, object / array literals, floats are outside the evaluation fragment (text twin and precedence theorems still cover "
+            "them as opaque nodes; the node differential covers their values).",
+    "technique": "Coq proof (text = printed tree, precedence well-formedness, semantic preservation incl. hoisting, by induction) + model/implementation text correspondence + node value differential",
     "jsrt": True,
 }
 
-THEOREMS = ["C03_tables_ok", "C03_legacy_xor_table_refuted", "C03_gen_paren_decision"]
+THEOREMS = ["C03_tables_ok", "C03_legacy_xor_table_refuted", "C03_gen_paren_decision",
+            "C03_emitted_text_is_tree", "C03_emitted_respects_precedence", "C03_compile_correct"]
 
 
 def value_diff(res, tier, seed):
@@ -71,6 +78,51 @@ def value_diff(res, tier, seed):
     return exprs, n_eval, n_skip, n_both_err, shapes, sizes, bad
 
 
+def model_semantics(res):
+    """Val.eval (the source semantics the theorems speak about) and jeval of the emitted tree after running the hoists
+    (C03_compile_correct says they agree) against node evaluating the emitted TEXT: hoisted statements + value text"""
+    p = harness_run(["guardden", res.tier, res.seed], timeout=3000)
+    jobs = [json.loads(l) for l in p.stdout.decode("utf8").split("\n") if l][::2]
+    model = modelrun(["expr_sem\t%s\t%s\t%s" % (j["esc"], j["sexp"], j["data_sexp"]) for j in jobs])
+    njobs, idx = [], []
+    n_outside = 0
+    found = 0
+    for k, (j, m) in enumerate(zip(jobs, model)):
+        if m.startswith(("ERR", "EXC")):
+            raise Infra("expr_sem model failed: %s on %s" % (m, j["text"]))
+        if m == "SKIP":
+            continue
+        src, tgt, hoisted, text = m.split("|")
+        if src != tgt:
+            found += 1
+            if found <= 3:
+                res.violation("model self-check: jeval of the emitted tree differs from eval of the source for {{ %s }}: %s vs %s" % (
+                    j["text"], tgt[:100], src[:100]), {"expr": j["text"], "data": j["data"]}, no_input=True)
+        if src == "O":
+            n_outside += 1
+            continue
+        if ("," + dec(text) + ")") not in j["impl_body"]:
+            continue   # (text differences are the text stage's business)
+        prog = "(() => { const X = (a) => (a == null ? Object.create(null) : a); %s; return (%s) })()" % (dec(hoisted), dec(text))
+        njobs.append({"op": "eval", "id": k, "expr": prog, "data": j["data"]})
+        idx.append(k)
+    out = node_jobs(njobs, shards=12)
+    n = 0
+    for k, o in zip(idx, out):
+        j, m = jobs[k], model[k]
+        if o.get("skip") or o.get("error"):
+            continue
+        n += 1
+        want = json.loads(m.split("|")[0][1:])
+        if json.dumps(want, sort_keys=True) != json.dumps(o.get("value"), sort_keys=True):
+            found += 1
+            if found <= 3:
+                res.violation("the source semantics of the Coq model (Val.eval) differs from node evaluating the emitted code for {{ %s }}: "
+                              "model %s, node %s" % (j["text"], json.dumps(want)[:120], json.dumps(o.get("value"))[:120]),
+                              {"expr": j["text"], "data": j["data"], "emitted": dec(m.split("|")[3])})
+    return n, n_outside, found
+
+
 def run(res):
     ok, what = (True, "")
     if THEOREMS:
@@ -88,6 +140,8 @@ def run(res):
             res.violation("generated value text differs from the Coq model of the expression generator (%s context): impl=%s model=%s" % (
                 f[1], dec(i.split("|")[0])[:300], dec(m.split("|")[0])[:300]),
                 {"case": f, "impl": i, "model": m}, no_input=True)
+    n_sem, n_sem_out, f_sem = model_semantics(res)
+    res.notes.update({"model_semantics_cases": n_sem, "model_semantics_outside_fragment": n_sem_out})
     exprs, n_eval, n_skip, n_err, shapes, sizes, bad = value_diff(res, res.tier, res.seed)
     # a text mismatch accompanied by a value mismatch is a concrete failing input: keep only those as "with input"
     if bad:
@@ -103,7 +157,7 @@ def run(res):
             {"wxml": e["wxml"], "src": e["src"], "reference_js": e["ref"], "data": d, "generated": gv, "reference": rv})
     if not ok:
         res.violation(what, {"obligation": "Properties/C03.v"}, no_input=not bad)
-    res.cov["evaluations"] = r["n"] + n_eval
+    res.cov["evaluations"] = r["n"] + n_eval + n_sem
     res.cov["distinct_nontrivial"] = len(set(e["wxml"] for e in exprs if e["size"] >= 3))
     res.cov["rule"] = ("text correspondence: every (operator, operand position, child shape) combination to depth 2 plus random "
                        "expressions (depth <= 6) in attribute / model: / event-named attribute / text contexts; value differential: "
